@@ -23,6 +23,13 @@ func (f *frame) libCall(callee *ssa.Function, c *ssa.CallCommon, base string, re
 	if recv := callee.Signature.Recv(); recv != nil {
 		name = pkg + ".(" + typeName(recv.Type()) + ")." + callee.Name()
 	}
+	if top := e.top; top != nil && top.contract != nil && len(top.contract.AtCalls) > 0 {
+		var as []SV
+		for _, a := range c.Args {
+			as = append(as, f.get(a))
+		}
+		f.atCallObligations(name, as, pos)
+	}
 	arg := func(i int) string { return f.scalar(c.Args[i]) }
 	f64 := types.Typ[types.Float64]
 	ret := func(t string) SV { return SV{t: resT, term: e.define(base, e.R.sortOf(resT), t)} }
@@ -48,6 +55,14 @@ func (f *frame) libCall(callee *ssa.Function, c *ssa.CallCommon, base string, re
 	case "math.Ceil":
 		used("Ceil returns the least integer value greater than or equal to x")
 		return ret(fmt.Sprintf("(fp.roundToIntegral RTP %s)", arg(0)))
+	case "math.Modf":
+		used("Modf returns integer and fractional floating-point numbers that sum to f, both with the sign of f; Modf(±Inf) = ±Inf, NaN; Modf(NaN) = NaN, NaN")
+		x := arg(0)
+		r := f.resultHavoc(base, resT)
+		ip, fr := r.tuple[0].term, r.tuple[1].term
+		f.assume(fmt.Sprintf("(ite (fp.isNaN %s) (and (fp.isNaN %s) (fp.isNaN %s)) (ite (fp.isInfinite %s) (and (= %s %s) (fp.isNaN %s)) (and (= %s (fp.roundToIntegral RTZ %s)) (fp.eq %s (fp.sub RNE %s (fp.roundToIntegral RTZ %s))) (= (fp.isNegative %s) (fp.isNegative %s)))))",
+			x, ip, fr, x, ip, x, fr, ip, x, fr, x, x, fr, x))
+		return r
 	case "math.Trunc":
 		used("Trunc returns the integer value of x")
 		return ret(fmt.Sprintf("(fp.roundToIntegral RTZ %s)", arg(0)))
@@ -205,6 +220,78 @@ func (f *frame) libCall(callee *ssa.Function, c *ssa.CallCommon, base string, re
 		fnm := map[string]string{"Int": "rv-int", "Uint": "rv-uint", "Float": "rv-float", "Bool": "rv-bool", "Kind": "rv-kind"}[callee.Name()]
 		e.R.extra(fmt.Sprintf("(declare-fun %s (%s) %s)", fnm, rv, e.R.sortOf(resT)))
 		return ret(fmt.Sprintf("(%s %s)", fnm, arg(0)))
+	case "reflect.Zero":
+		used("Zero returns a Value representing the zero value of the type (its Kind is the type's Kind)")
+		rv := e.R.sortOf(resT)
+		e.declareReflect(rv)
+		r := f.resultHavoc(base, resT)
+		f.assume(fmt.Sprintf("(= (rv-kind %s) (rt-kind %s))", r.term, arg(0)))
+		return r
+	case "reflect.(reflect.Value).OverflowInt", "reflect.(reflect.Value).OverflowUint", "reflect.(reflect.Value).OverflowFloat":
+		used("OverflowInt/OverflowUint/OverflowFloat report whether the argument cannot be represented by the Value's type (bit size of its kind; Float32: MaxFloat32 < |x| <= MaxFloat64)")
+		rv := e.R.sortOf(c.Args[0].Type())
+		e.declareReflect(rv)
+		k := fmt.Sprintf("(rv-kind %s)", arg(0))
+		switch callee.Name() {
+		case "OverflowInt":
+			return ret(not(fitsSigned(k, arg(1))))
+		case "OverflowUint":
+			return ret(not(fitsUnsigned(k, arg(1))))
+		default:
+			x := arg(1)
+			maxF32 := "((_ to_fp 11 53) RNE (fp #b0 #xfe #b11111111111111111111111))"
+			return ret(fmt.Sprintf("(and (= %s %s) (fp.lt %s (fp.abs %s)) (not (fp.isInfinite %s)) (not (fp.isNaN %s)))", k, bvLit(rkFloat32, 64), maxF32, x, x, x))
+		}
+	case "reflect.(reflect.Value).Convert":
+		used("Convert returns the value converted to the type by Go's conversion rules: integer kinds keep the low bits of the size of the target kind (sign- or zero-extended back), integer to float rounds to nearest, float64 to float32 rounds to nearest")
+		rv := e.R.sortOf(resT)
+		e.declareReflect(rv)
+		src := arg(0)
+		r := f.resultHavoc(base, resT)
+		tk := fmt.Sprintf("(rt-kind %s)", arg(1))
+		sk := fmt.Sprintf("(rv-kind %s)", src)
+		srcSigned := kindIn(sk, rkInt, rkInt64)
+		srcUnsigned := kindIn(sk, rkUint, rkUintptr)
+		srcFloat := kindIn(sk, rkFloat32, rkFloat64)
+		srcBits := fmt.Sprintf("(ite %s (rv-int %s) (rv-uint %s))", srcSigned, src, src)
+		wrap := func(signed bool) string {
+			ext := func(bits int) string {
+				lowb := fmt.Sprintf("((_ extract %d 0) %s)", bits-1, srcBits)
+				if signed {
+					return sext(lowb, bits, 64)
+				}
+				return zext(lowb, bits, 64)
+			}
+			is := func(ns ...int64) string {
+				var cs []string
+				for _, n := range ns {
+					cs = append(cs, fmt.Sprintf("(= %s %s)", tk, bvLit(n, 64)))
+				}
+				return or(cs...)
+			}
+			return fmt.Sprintf("(ite %s %s (ite %s %s (ite %s %s %s)))", is(rkInt8, rkUint8), ext(8), is(rkInt16, rkUint16), ext(16), is(rkInt32, rkUint32), ext(32), srcBits)
+		}
+		srcAsFloat := fmt.Sprintf("(ite %s (rv-float %s) (ite %s ((_ to_fp 11 53) RNE %s) ((_ to_fp_unsigned 11 53) RNE %s)))", srcFloat, src, srcSigned, srcBits, srcBits)
+		f.assume(and(
+			fmt.Sprintf("(= (rv-kind %s) %s)", r.term, tk),
+			implies(and(kindIn(tk, rkInt, rkInt64), or(srcSigned, srcUnsigned)), fmt.Sprintf("(= (rv-int %s) %s)", r.term, wrap(true))),
+			implies(and(kindIn(tk, rkUint, rkUintptr), or(srcSigned, srcUnsigned)), fmt.Sprintf("(= (rv-uint %s) %s)", r.term, wrap(false))),
+			implies(fmt.Sprintf("(= %s %s)", tk, bvLit(rkFloat64, 64)), fmt.Sprintf("(= (rv-float %s) %s)", r.term, srcAsFloat)),
+			implies(fmt.Sprintf("(= %s %s)", tk, bvLit(rkFloat32, 64)), fmt.Sprintf("(= (rv-float %s) ((_ to_fp 11 53) RNE ((_ to_fp 8 24) RNE %s)))", r.term, srcAsFloat)),
+		))
+		return r
+	case "reflect.(reflect.Value).Type":
+		used("Value.Type returns the (non-nil) type of a valid Value (panics on the zero Value: not modelled)")
+		r := f.resultHavoc(base, resT)
+		f.assume(fmt.Sprintf("(not (= %s I_nil))", r.term))
+		return r
+	case "reflect.(reflect.Value).Interface":
+		used("Interface returns the current value as an interface{} (ValueOf of it is the same value)")
+		rv := e.R.sortOf(c.Args[0].Type())
+		e.declareReflect(rv)
+		r := f.resultHavoc(base, resT)
+		f.assume(fmt.Sprintf("(= (rv-of %s) %s)", r.term, arg(0)))
+		return r
 	case "bytes.NewBuffer", "bytes.NewBufferString", "strings.NewReader", "strings.NewReplacer":
 		used("constructor returns a non-nil pointer")
 		r := f.resultHavoc(base, resT)
@@ -244,6 +331,23 @@ func (f *frame) libCall(callee *ssa.Function, c *ssa.CallCommon, base string, re
 
 // invokeModel: interface method calls with a fixed meaning.
 func (f *frame) invokeModel(c *ssa.CallCommon, base string, resT types.Type) (SV, bool) {
+	if n, ok := c.Value.Type().(*types.Named); ok && n.Obj().Pkg() != nil && n.Obj().Pkg().Path() == "reflect" && n.Obj().Name() == "Type" {
+		e := f.enc
+		switch c.Method.Name() {
+		case "Kind":
+			e.note("assumed contract of reflect.Type.Kind: a fixed function of the type")
+			e.R.extra("(declare-fun rt-kind (Iface) (_ BitVec 64))")
+			return SV{t: resT, term: e.define(base, e.R.sortOf(resT), fmt.Sprintf("(rt-kind %s)", f.scalar(c.Value)))}, true
+		case "String", "Name", "NumIn", "NumOut", "NumField", "IsVariadic", "Bits", "Len", "Elem", "Key", "In", "Out", "Field", "PkgPath", "Size":
+			e.note("assumed contract of reflect.Type." + c.Method.Name() + ": reads nothing of otto's heap, result not modelled (a Type result is non-nil)")
+			r := f.resultHavoc(base, resT)
+			switch c.Method.Name() {
+			case "Elem", "Key", "In", "Out":
+				f.assume(fmt.Sprintf("(not (= %s I_nil))", r.term))
+			}
+			return r, true
+		}
+	}
 	switch c.Method.Name() {
 	case "Error", "String":
 		if c.Signature().Params().Len() == 0 {
@@ -254,16 +358,72 @@ func (f *frame) invokeModel(c *ssa.CallCommon, base string, resT types.Type) (SV
 	return SV{}, false
 }
 
-// reflectValueOf models reflect.ValueOf(x) for scalar dynamic types.
-func (f *frame) reflectValueOf(c *ssa.CallCommon, base string, resT types.Type) SV {
-	e := f.enc
-	rv := e.R.sortOf(resT)
+// declareReflect declares the abstract view of reflect.Value / reflect.Type.
+func (e *FnEnc) declareReflect(rv string) {
 	e.R.extra(fmt.Sprintf("(declare-fun rv-of (Iface) %s)", rv))
 	e.R.extra(fmt.Sprintf("(declare-fun rv-int (%s) (_ BitVec 64))", rv))
 	e.R.extra(fmt.Sprintf("(declare-fun rv-uint (%s) (_ BitVec 64))", rv))
 	e.R.extra(fmt.Sprintf("(declare-fun rv-float (%s) Float64)", rv))
 	e.R.extra(fmt.Sprintf("(declare-fun rv-bool (%s) Bool)", rv))
 	e.R.extra(fmt.Sprintf("(declare-fun rv-kind (%s) (_ BitVec 64))", rv))
+	e.R.extra("(declare-fun rt-kind (Iface) (_ BitVec 64))")
+}
+
+// reflect.Kind numbers (reflect/type.go)
+const (
+	rkBool = 1
+	rkInt = 2
+	rkInt8 = 3
+	rkInt16 = 4
+	rkInt32 = 5
+	rkInt64 = 6
+	rkUint = 7
+	rkUint8 = 8
+	rkUint16 = 9
+	rkUint32 = 10
+	rkUint64 = 11
+	rkUintptr = 12
+	rkFloat32 = 13
+	rkFloat64 = 14
+	rkInterface = 20
+)
+
+func kindIn(k string, lo, hi int64) string {
+	return fmt.Sprintf("(and (bvuge %s %s) (bvule %s %s))", k, bvLit(lo, 64), k, bvLit(hi, 64))
+}
+
+// kindBitsTerm: bit size of an integer kind term (Int/Uint/Uintptr = 64 on amd64).
+func kindBitsTerm(k string) string {
+	is := func(n int64) string { return fmt.Sprintf("(= %s %s)", k, bvLit(n, 64)) }
+	return fmt.Sprintf("(ite (or %s %s) #x0000000000000008 (ite (or %s %s) #x0000000000000010 (ite (or %s %s) #x0000000000000020 #x0000000000000040)))",
+		is(rkInt8), is(rkUint8), is(rkInt16), is(rkUint16), is(rkInt32), is(rkUint32))
+}
+
+// fitsSigned / fitsUnsigned: x (64-bit) is representable in an integer of the kind's size.
+func fitsSigned(k, x string) string {
+	is := func(n int64) string { return fmt.Sprintf("(= %s %s)", k, bvLit(n, 64)) }
+	rng := func(bits uint) string {
+		lo := -(int64(1) << (bits - 1))
+		hi := (int64(1) << (bits - 1)) - 1
+		return fmt.Sprintf("(and (bvsle %s %s) (bvsle %s %s))", bvLit(lo, 64), x, x, bvLit(hi, 64))
+	}
+	return fmt.Sprintf("(ite %s %s (ite %s %s (ite %s %s true)))", is(rkInt8), rng(8), is(rkInt16), rng(16), is(rkInt32), rng(32))
+}
+
+func fitsUnsigned(k, x string) string {
+	is := func(n int64) string { return fmt.Sprintf("(= %s %s)", k, bvLit(n, 64)) }
+	rng := func(bits uint) string {
+		hi := (int64(1) << bits) - 1
+		return fmt.Sprintf("(bvule %s %s)", x, bvLit(hi, 64))
+	}
+	return fmt.Sprintf("(ite %s %s (ite %s %s (ite %s %s true)))", is(rkUint8), rng(8), is(rkUint16), rng(16), is(rkUint32), rng(32))
+}
+
+// reflectValueOf models reflect.ValueOf(x) for scalar dynamic types.
+func (f *frame) reflectValueOf(c *ssa.CallCommon, base string, resT types.Type) SV {
+	e := f.enc
+	rv := e.R.sortOf(resT)
+	e.declareReflect(rv)
 	a := f.scalar(c.Args[0])
 	r := e.define(base, rv, fmt.Sprintf("(rv-of %s)", a))
 	kinds := []struct {
@@ -294,6 +454,7 @@ func (f *frame) reflectValueOf(c *ssa.CallCommon, base string, resT types.Type) 
 		}
 		facts = append(facts, fmt.Sprintf("(=> %s (and %s (= (rv-kind %s) %s)))", is, val, r, bvLit(k.kind, 64)))
 	}
+	facts = append(facts, fmt.Sprintf("(not (= (rv-kind %s) %s))", r, bvLit(rkInterface, 64)))
 	f.assume(and(facts...))
 	return SV{t: resT, term: r}
 }
